@@ -788,6 +788,17 @@ func resolveRelationalType(module *Module, fn *Function, expr ExprRelational) (T
 	return TypeResolution{Value: ScalarType{Kind: ScalarBool, Width: 1}}, nil
 }
 
+// mathInnerType returns the TypeInner behind a resolution (nil when the handle is out of range).
+func mathInnerType(module *Module, res TypeResolution) TypeInner {
+	if res.Handle != nil {
+		if int(*res.Handle) >= len(module.Types) {
+			return nil
+		}
+		return module.Types[*res.Handle].Inner
+	}
+	return res.Value
+}
+
 func resolveMathType(module *Module, fn *Function, expr ExprMath) (TypeResolution, error) {
 	argType, err := ResolveExpressionType(module, fn, expr.Arg)
 	if err != nil {
@@ -826,7 +837,31 @@ func resolveMathType(module *Module, fn *Function, expr ExprMath) (TypeResolutio
 		return TypeResolution{Value: ScalarType{Kind: ScalarFloat, Width: 4}}, nil
 
 	case MathOuter:
-		// Outer product returns matrix - complex, skip for now
+		// outerProduct(c, r): columns = size of the second argument, rows = size of the first.
+		if expr.Arg1 != nil {
+			arg1Type, err := ResolveExpressionType(module, fn, *expr.Arg1)
+			if err == nil {
+				colVec, ok0 := mathInnerType(module, argType).(VectorType)
+				rowVec, ok1 := mathInnerType(module, arg1Type).(VectorType)
+				if ok0 && ok1 {
+					return TypeResolution{Value: MatrixType{Columns: rowVec.Size, Rows: colVec.Size, Scalar: colVec.Scalar}}, nil
+				}
+			}
+		}
+		return argType, nil
+
+	case MathTranspose:
+		// transpose(matCxR) is matRxC
+		if mat, ok := mathInnerType(module, argType).(MatrixType); ok && mat.Columns != mat.Rows {
+			return TypeResolution{Value: MatrixType{Columns: mat.Rows, Rows: mat.Columns, Scalar: mat.Scalar}}, nil
+		}
+		return argType, nil
+
+	case MathDeterminant:
+		// determinant returns the scalar type of the matrix
+		if mat, ok := mathInnerType(module, argType).(MatrixType); ok {
+			return TypeResolution{Value: mat.Scalar}, nil
+		}
 		return argType, nil
 
 	case MathUnpack4xI8:
